@@ -1556,3 +1556,27 @@ Proof.
 Qed.
 
 End Statements.
+
+(* ================================================================ tie to the Ledger's environment assumptions *)
+Require Import MW.Ledger.Run MW.Ledger.WF.
+
+Lemma linked_heights : forall c prev h,
+  linked prev h c -> forall i b, nth_error c i = Some b -> b_height b = (h + Z.of_nat i)%Z.
+Proof.
+  induction c as [|x c IH]; intros prev h Hl i b Hn; [destruct i; discriminate|].
+  cbn [linked] in Hl. destruct Hl as (_ & Hh & Hl). destruct i as [|i]; cbn in Hn.
+  - inversion Hn. subst. lia.
+  - rewrite (IH _ _ Hl i b Hn). lia.
+Qed.
+
+(* a chain that is well formed in the sense of Ledger/WF.v has the heights and the empty genesis
+   block this development assumes *)
+Lemma wf_chain_heights : forall c, wf_chain c ->
+  heights_ok c /\ exists g rest, c = g :: rest /\ b_height g = 0%Z /\ b_txs g = [].
+Proof.
+  intros c [Hgen _ _ _ _]. destruct Hgen as (g & rest & -> & Hg & Htx & Hl). split.
+  - intros i b Hn. destruct i as [|i]; cbn in Hn.
+    + inversion Hn. subst. exact Hg.
+    + rewrite (linked_heights _ _ _ Hl i b Hn). lia.
+  - exists g, rest. auto.
+Qed.
